@@ -28,7 +28,8 @@ from mc.ref import scriptlang as R
 PID = 'C18'
 ALPHA = "'\"#${}\na \\"
 FRAGS = ['# c\\\n', 'a\\\n', 'x=1', "'lit'", '"lit"', '"it\'s"', "'#'", '# c\n', "# it's\n", '${001001}', '${ 001001 }', '${%n_subsets}',
-         '$', '$x', "'${q}'", '# ${q}\n', '\n', ' ', '{', '}', '"${a}#"', '${a"b}', "${#'}"]
+         '$', '$x', "'${q}'", '# ${q}\n', '\n', ' ', '{', '}', '"${a}#"', '${a"b}', "${#'}",
+         '${0 01001}', '${% n_subsets}', '${%n_subsets }']        # inner whitespace: other expressions than the trimmed spellings above
 
 
 def judge(proc, s):
